@@ -285,3 +285,115 @@ def await_loop_invariant(prefix="C01"):
             clauses.extend(extra(I, phase, name))
         return clauses
     return inv
+
+
+# =========================================================================== modular use at call sites
+JSONRPC = "src/chuk_mcp/protocol/messages/json_rpc_message.py"
+PERMANENT_CODES = (-32700, -32600, -32601, -32602, -32003, -32005, -32006, -32007, -32008, -32000)
+
+
+class SendMessageModular(Contract):
+    """Call-site form of send_message's contract (what C01/C07/C14 prove about it):
+      requires : read_stream / write_stream are stream objects, method is a str, params None or a dict
+      outcomes : (a) returns the payload r of the first matching response; exactly one request
+                     {id fresh-or-given, method, params} appended to write_stream.written;
+                 (b) raises RetryableError / NonRetryableError carrying an int code classified by the
+                     documented permanent set, request written;
+                 (c) raises TimeoutError, request written;
+                 (d) raises EndOfStream / ClosedResourceError (read side), request written;
+                 (e) raises BrokenResourceError / ClosedResourceError (write side), nothing written;
+                 (f) with a cancellation token: raises the library CancelledError.
+    Time: every outcome returns within `timeout` of the wait (not used by the callers verified so far)."""
+    key = SEND_KEY
+
+    def __init__(self, outcomes=("return", "retryable", "nonretryable", "timeout", "read_closed", "write_failed")):
+        self.outcomes = outcomes
+
+    def apply(self, I, args, kwargs, node):
+        names = ["read_stream", "write_stream", "method", "params"]
+        b = dict(zip(names, args))
+        b.update(kwargs)
+        rs, ws = b.get("read_stream"), b.get("write_stream")
+        method, params = b.get("method"), b.get("params", V.NONE)
+        pfx = getattr(I, "callsite_prefix", "callsite")
+        I.oblige(f"{pfx}.send_message.requires_method_is_str@{getattr(node, 'lineno', 0)}", V.is_str(method))
+        I.oblige(f"{pfx}.send_message.requires_params_none_or_dict@{getattr(node, 'lineno', 0)}",
+                 z3.Or(V.is_none(params), V.is_dict(params)))
+        for s_, nm in ((rs, "read_stream"), (ws, "write_stream")):
+            if s_ is None or V.ctor_name(z3.simplify(s_)) != "obj":
+                I.oblige(f"{pfx}.send_message.requires_{nm}_is_a_stream@{getattr(node, 'lineno', 0)}", z3.BoolVal(False))
+                raise PathEnd("precondition violated")
+        mid = b.get("message_id", V.NONE)
+        rid = I.fresh("req_id")
+        I.assume(z3.And(V.is_str(rid), z3.Length(Val.s(rid)) > 0))
+        if V.ctor_name(z3.simplify(mid)) != "none":
+            I.assume(z3.Implies(V.truthy(mid), rid == mid))
+        cd = I.ctx.repo_class(I.ctx.repo.klass(f"{JSONRPC}::JSONRPCRequest"))
+        opts = list(self.outcomes)
+        if "cancellation_token" in b and V.ctor_name(z3.simplify(b["cancellation_token"])) != "none":
+            opts.append("cancelled")
+        c = opts[I.choose_n(len(opts), "send_message_outcome")]
+
+        def write_request():
+            req = I.new_object(cd, {"jsonrpc": V.VStr("2.0"), "id": rid, "method": method, "params": params,
+                                    pyd.EXTRA: V.VDict([])})
+            w = Val.items(E.gfield(I, ws, "written"))
+            I.set_attr(ws, "written", V.VList(z3.simplify(z3.Concat(w, z3.Unit(req)))))
+            a = Val.items(E.gfield(I, ws, "attempted"))
+            I.set_attr(ws, "attempted", V.VList(z3.simplify(z3.Concat(a, z3.Unit(req)))))
+            I.ghost.setdefault("requests_written", []).append(req)
+            return req
+
+        def consume():
+            pos = Val.i(E.gfield(I, rs, "pos"))
+            p2 = I.fresh_int("pos_after")
+            I.assume(p2 > pos)
+            I.set_attr(rs, "pos", V.VInt(p2))
+        E.clock_advance(I)
+        if c == "return":
+            write_request()
+            consume()
+            r = I.fresh("sm_result")
+            # the payload of a response is JSON data (type invariant of delivered messages), never an instance
+            I.assume(z3.Or(V.is_none(r), V.is_bool(r), V.is_int(r), V.is_real(r), V.is_str(r), V.is_list(r),
+                           V.is_dict(r)))
+            I.ghost.setdefault("send_message_results", []).append(r)
+            return r
+        if c in ("retryable", "nonretryable"):
+            write_request()
+            consume()
+            code = I.fresh_int("err_code")
+            perm = z3.Or([code == k for k in PERMANENT_CODES])
+            I.assume(perm if c == "nonretryable" else z3.Not(perm))
+            cls = NONRETRYABLE_CLS if c == "nonretryable" else RETRYABLE_CLS
+            msg = I.fresh("err_msg", z3.StringSort())
+            ecd = I.ctx.repo_class(I.ctx.repo.klass("src/chuk_mcp/protocol/types/errors.py::" + cls.split(".")[-1]))
+            ev = I.new_object(ecd, {"__msg__": V.VStr(msg), "code": V.VInt(code), "data": V.NONE,
+                                                     "args": V.VTuple([V.VStr(msg)])})
+            I.ghost["send_message_raised"] = ev
+            raise PyRaise(ev, cls)
+        if c == "timeout":
+            write_request()
+            ev = I.make_exc("TimeoutError", V.VStr(""))
+            I.ghost["send_message_raised"] = ev
+            raise PyRaise(ev, "TimeoutError")
+        if c == "read_closed":
+            write_request()
+            k = ["EndOfStream", "ClosedResourceError"][I.choose_n(2, "read_closed_kind")]
+            ev = I.make_exc(k, V.VStr(""))
+            I.ghost["send_message_raised"] = ev
+            raise PyRaise(ev, k)
+        if c == "write_failed":
+            k = ["BrokenResourceError", "ClosedResourceError"][I.choose_n(2, "write_failed_kind")]
+            ev = I.make_exc(k, V.VStr(""))
+            I.ghost["send_message_raised"] = ev
+            raise PyRaise(ev, k)
+        if c == "cancelled":
+            ccd = I.ctx.repo_class(I.ctx.repo.klass(f"{SEND}::CancelledError"))
+            ev = I.new_object(ccd, {"__msg__": V.VStr("cancelled")})
+            I.ghost["send_message_raised"] = ev
+            raise PyRaise(ev, LIB_CANCELLED)
+        raise EngineError("unknown outcome")
+
+
+from pyvc.core import PathEnd, EngineError      # noqa: E402
